@@ -33,6 +33,10 @@ import (
 //   reset                       new agent                                          -> ok
 //   connect in|out <p>          a handshake with peer p completes (inbound: Accept, outbound:
 //                               ConnectWithTransport)                              -> registered c<k> | rejected c<k>
+//   race <p> <k> held|free      k handshakes with peer p complete SIMULTANEOUSLY (held: all inbound, released together
+//                               from behind the manager's lock; free: both directions, goroutines started together);
+//                               then a frame is sent on each: exactly one may be registered, stay open, deliver
+//                                                                                  -> race registered=<n> open=<n> delivered=<n>
 //   frame <c>                   the remote end sends a STREAM_DATA frame on c      -> delivered | dropped
 //   rclose <c>                  the remote closes c; the read error is held, the keepalive loop's next
 //                               send (real timer, 100 ms interval) fails and it tears the connection
@@ -170,9 +174,12 @@ func (c *c32Conn) remoteLoop() {
 	}
 }
 
-func (w *c32World) connect(dir string, p int) string {
-	c := &c32Conn{idx: len(w.conns), p: p, responsive: true}
-	dialEnd, listenEnd := pmtPair(fmt.Sprintf("c%d", c.idx))
+// handshake performs one complete handshake with peer p (real Accept / ConnectWithTransport on the
+// agent's manager, real Handshaker on the scripted remote end). `ready`, if not nil, is closed when the
+// remote end has finished its part (the local side is then at or in registerConnection).
+func (w *c32World) handshake(dir string, p int, name string, ready chan<- struct{}) *c32Conn {
+	c := &c32Conn{idx: -1, p: p, responsive: true}
+	dialEnd, listenEnd := pmtPair(name)
 	dialEnd.holdReadErrors()
 	c.end = dialEnd
 	ctx, cancel := context.WithTimeout(context.Background(), 5*time.Second)
@@ -186,32 +193,146 @@ func (w *c32World) connect(dir string, p int) string {
 	rch := make(chan res, 1)
 	var local *peer.Connection
 	var err error
+	tr := &pmtTransport{dial: func(context.Context, string) (transport.PeerConn, error) { return dialEnd, nil }}
 	if dir == "in" {
 		go func() {
-			rc, err := h.DialAndHandshake(ctx, &pmtTransport{dial: func(context.Context, string) (transport.PeerConn, error) { return dialEnd, nil }}, "mem", rcfg, transport.DialOptions{})
+			rc, err := h.DialAndHandshake(ctx, tr, "mem", rcfg, transport.DialOptions{})
+			if ready != nil {
+				close(ready)
+			}
 			rch <- res{rc, err}
 		}()
 		local, err = w.m.Accept(ctx, listenEnd)
 	} else {
 		go func() {
 			rc, err := h.AcceptHandshake(ctx, listenEnd, rcfg)
+			if ready != nil {
+				close(ready)
+			}
 			rch <- res{rc, err}
 		}()
-		local, err = w.m.ConnectWithTransport(ctx, &pmtTransport{dial: func(context.Context, string) (transport.PeerConn, error) { return dialEnd, nil }}, fmt.Sprintf("mem-peer-%d", p))
+		local, err = w.m.ConnectWithTransport(ctx, tr, fmt.Sprintf("mem-peer-%d", p))
 	}
 	r := <-rch
 	if err != nil || r.err != nil {
-		return "handshake-failed"
+		return nil
 	}
 	c.local, c.remote = local, r.conn
-	c.registered = w.m.GetPeer(c32ID(p)) == local
-	w.conns = append(w.conns, c)
 	go c.remoteLoop()
+	return c
+}
+
+func (w *c32World) connect(dir string, p int) string {
+	c := w.handshake(dir, p, fmt.Sprintf("c%d", len(w.conns)), nil)
+	if c == nil {
+		return "handshake-failed"
+	}
+	c.idx = len(w.conns)
+	c.registered = w.m.GetPeer(c32ID(p)) == c.local
+	w.conns = append(w.conns, c)
 	if c.registered {
 		c.settle()
 		return fmt.Sprintf("registered c%d", c.idx)
 	}
 	return fmt.Sprintf("rejected c%d", c.idx)
+}
+
+// race: k simultaneous handshakes of one identity.
+func (w *c32World) race(p, k int, held bool) string {
+	res := make([]*c32Conn, k)
+	ready := make([]chan struct{}, k)
+	start := make(chan struct{})
+	var wg sync.WaitGroup
+	if held {
+		w.m.VerifC32LockMu()
+	}
+	for i := 0; i < k; i++ {
+		dir := "in"
+		if !held && i%2 == 1 {
+			dir = "out"
+		}
+		ready[i] = make(chan struct{})
+		wg.Add(1)
+		go func(i int, dir string) {
+			defer wg.Done()
+			<-start
+			res[i] = w.handshake(dir, p, fmt.Sprintf("race%d-%d", len(w.conns), i), ready[i])
+		}(i, dir)
+	}
+	close(start)
+	if held {
+		for i := 0; i < k; i++ {
+			select {
+			case <-ready[i]:
+			case <-time.After(3 * time.Second):
+			}
+		}
+		time.Sleep(5 * time.Millisecond) // all k are now waiting in registerConnection
+		w.m.VerifC32UnlockMu()
+	}
+	wg.Wait()
+	cur := w.m.GetPeer(c32ID(p))
+	var winner *c32Conn
+	var rest []*c32Conn
+	registered, open := 0, 0
+	for _, c := range res {
+		if c == nil {
+			return "handshake-failed"
+		}
+		if c.local == cur {
+			c.registered = true
+			registered++
+			winner = c
+		} else {
+			rest = append(rest, c)
+		}
+	}
+	order := rest
+	if winner != nil {
+		order = append([]*c32Conn{winner}, rest...)
+	}
+	for _, c := range order {
+		c.idx = len(w.conns)
+		w.conns = append(w.conns, c)
+	}
+	time.Sleep(2 * time.Millisecond)
+	for _, c := range order {
+		if !c.localClosed() {
+			open++
+			c.settle()
+		}
+	}
+	delivered := 0
+	for _, c := range order {
+		if w.sendFrame(c) {
+			delivered++
+		}
+	}
+	return fmt.Sprintf("race registered=%d open=%d delivered=%d", registered, open, delivered)
+}
+
+// sendFrame: the remote end writes one STREAM_DATA frame; was it handed to the frame callback?
+func (w *c32World) sendFrame(c *c32Conn) bool {
+	w.nextSID++
+	sid := w.nextSID
+	for len(w.frames) > 0 {
+		<-w.frames
+	}
+	if err := c.remote.WriteFrame(&protocol.Frame{Type: protocol.FrameStreamData, StreamID: sid, Payload: []byte{1}}); err != nil {
+		return false
+	}
+	deadline := time.After(60 * time.Millisecond)
+	for {
+		select {
+		case got := <-w.frames:
+			if got == sid {
+				c.settle()
+				return true
+			}
+		case <-deadline:
+			return false
+		}
+	}
 }
 
 // settle waits until the manager's read loop (and the scripted remote reader) are blocked in Read.
@@ -258,31 +379,15 @@ func c32Run(line string) string {
 	switch f[0] {
 	case "connect":
 		return w.connect(f[1], num(2))
+	case "race":
+		return w.race(num(1), num(2), f[3] == "held")
 	case "frame":
 		c := w.conn(f[1])
 		if c == nil {
 			return "dropped"
 		}
-		w.nextSID++
-		sid := w.nextSID
-		for len(w.frames) > 0 {
-			<-w.frames
-		}
-		err := c.remote.WriteFrame(&protocol.Frame{Type: protocol.FrameStreamData, StreamID: sid, Payload: []byte{1}})
-		if err == nil {
-			deadline := time.After(60 * time.Millisecond)
-			for {
-				select {
-				case got := <-w.frames:
-					if got == sid {
-						c.settle()
-						return "delivered"
-					}
-					continue
-				case <-deadline:
-				}
-				break
-			}
+		if w.sendFrame(c) {
+			return "delivered"
 		}
 		return "dropped"
 	case "ktimeout", "rclose":
@@ -391,7 +496,22 @@ func init() {
 			dir := func() string { return r.pickS("in", "out") }
 			for i := 0; i < cases; i++ {
 				p("reset")
-				switch r.intn(6) {
+				kind := r.intn(7)
+				if i < 2 {
+					kind = 6 // every run stresses simultaneous registration
+				}
+				switch kind {
+				case 6: // k simultaneous handshakes of one identity: exactly one registers, stays open, delivers
+					for q := 1; q <= 4; q++ {
+						p("race %d %d %s", q, r.pick(2, 4, 8), r.pickS("held", "held", "free"))
+						p("peer %d", q)
+					}
+					p("race 1 %d held", r.pick(2, 6)) // peer 1 is connected already: all are rejected
+					p("frame 0")
+					p("learn 1 2")
+					p("disconnect 1")
+					p("race 1 %d %s", r.pick(3, 5), r.pickS("held", "free"))
+					obs()
 				case 0: // keepalive timeout, fast reconnect, THEN the old read loop's teardown
 					p("connect %s 1", dir())
 					p("connect %s 2", dir())
